@@ -9,7 +9,8 @@
 //   and handler sends to ranks >= g are not issued (a forward to a rank >= g is dropped).
 //   Script line `T <J>`: TWO containers of the same type are alive at once on the communicator; key k belongs to
 //   container (k >> 20) >= J (disjoint key sets, same cache slots), operations interleave as the script says.
-//   mode  cset | rmap | rarr | rbkvec | rbkbag
+//   mode  cset | rmap | rarr | rbkvec | rbkbag | rbkbag2 (input bag lives on a SECOND ygm::comm over the same ranks
+//         and still has un-barriered async_inserts when reduce_by_key_map is called)
 //   opid  0 sum  1 max  2 xor  |  operators for which the value-initialised T{} (0) is NOT neutral:
 //         3 min  4 product mod 1000003  5 bitwise and  6 max of the values read as signed 64-bit (negatives)
 // script lines (every rank reads the whole file and interprets the lines of its rank):
@@ -18,6 +19,8 @@
 //   <rank> i <k> <v>               main-context async_insert(k) / async_reduce(k, v)
 //   <rank> h <d> <k> <v> <d2> <k2> <v2>   send a handler to rank d that inserts (k, v) and, when d2 >= 0,
 //                                  sends a second handler to d2 that inserts (k2, v2)
+//   <rank> n <k> <cnt>             cset only: verif_cache_insert_n(k, cnt) — as if k had been inserted cnt times on this rank
+//                                  (one real cache_insert, then cnt-1 added to the cached count); reaches the INT32_MAX guard
 //   <rank> b                       barrier (every rank has the same number of them)
 // Events on the coordinator's ordered log (only while tracing is on, i.e. during the script):
 //   ib k v / ie     harness calls async_insert / async_reduce        hb / he   harness handler body
@@ -109,7 +112,7 @@ static script_t read_script(const char* path) {
     if (w == "L") { ss >> s.len; continue; }
     if (w == "T") { ss >> s.twinJ; continue; }
     op_t o{}; o.rank = atoi(w.c_str()); std::string kd; ss >> kd; o.kind = kd[0]; o.d2 = -1;
-    if (o.kind == 'i') ss >> o.k >> o.v;
+    if (o.kind == 'i' || o.kind == 'n') ss >> o.k >> o.v;
     else if (o.kind == 'h') ss >> o.d >> o.k >> o.v >> o.d2 >> o.k2 >> o.v2;
     s.all.push_back(o);
   }
@@ -124,6 +127,7 @@ static void run_script(const script_t& s, Ptr pa, Ptr pb, H, std::function<void(
   int phase = 0, size = g_world->size();
   for (const op_t& o : s.ops) {
     if (o.kind == 'i') { H::insert(sel(o.k) ? pb : pa, o.k, o.v); }
+    else if (o.kind == 'n') { H::insert_n(sel(o.k) ? pb : pa, o.k, o.v); }
     else if (o.kind == 'h') { if (o.d < size) { evs("sb"); g_world->async((int)o.d, H(), pa, pb, o.k, o.v, (int)o.d2, o.k2, o.v2); evs("se"); } }
     else if (o.kind == 'b') { evs("bb"); g_world->barrier(); evs("be"); after_barrier(phase++); }
   }
@@ -136,7 +140,15 @@ static void handler_body(Ptr pa, Ptr pb, uint64_t k, uint64_t v, int d2, uint64_
 }
 
 using CS = ygm::container::counting_set<HK>;
+// verif_cache_insert_n exists only in trees with the verification hooks
+template <typename T, typename = void> struct has_insert_n : std::false_type {};
+template <typename T> struct has_insert_n<T, std::void_t<decltype(std::declval<T&>().verif_cache_insert_n(std::declval<const HK&>(), 1))>> : std::true_type {};
+template <typename T> static void call_insert_n(T& cs, uint64_t k, uint64_t n) {
+  if constexpr (has_insert_n<T>::value) { evk("ib", k, n); cs.verif_cache_insert_n(HK(k), (int32_t)n); evs("ie"); }
+  else { hc::out("nopreload"); }
+}
 struct cs_handler {
+  static void insert_n(ygm::ygm_ptr<CS> p, uint64_t k, uint64_t n) { call_insert_n(*p, k, n); }
   static void insert(ygm::ygm_ptr<CS> p, uint64_t k, uint64_t v) { evk("ib", k, 1); p->async_insert(HK(k)); evs("ie"); }
   void operator()(ygm::ygm_ptr<CS> pa, ygm::ygm_ptr<CS> pb, uint64_t k, uint64_t v, int d2, uint64_t k2, uint64_t v2) {
     handler_body<ygm::ygm_ptr<CS>, cs_handler>(pa, pb, k, v, d2, k2, v2);
@@ -144,6 +156,7 @@ struct cs_handler {
 };
 template <typename RA>
 struct ra_handler {
+  static void insert_n(ygm::ygm_ptr<RA>, uint64_t, uint64_t) {}
   static void insert(ygm::ygm_ptr<RA> p, uint64_t k, uint64_t v) { evk("ib", k, v); p->async_reduce(k, HV(v, k)); evs("ie"); }
   void operator()(ygm::ygm_ptr<RA> pa, ygm::ygm_ptr<RA> pb, uint64_t k, uint64_t v, int d2, uint64_t k2, uint64_t v2) {
     handler_body<ygm::ygm_ptr<RA>, ra_handler<RA>>(pa, pb, k, v, d2, k2, v2);
@@ -171,7 +184,7 @@ static void report_cset(CS& cs, const script_t& s, int c, ygm::comm& comm) {
 }
 
 // ---- one complete scenario on communicator `comm` (containers are created and destroyed inside)
-static void scenario(ygm::comm& comm, const std::string& name, const std::string& mode, script_t& s) {
+static void scenario(ygm::comm& comm, MPI_Comm mc, const std::string& name, const std::string& mode, script_t& s) {
   g_world = &comm;
   g_twinJ = s.twinJ;
   s.ops.clear();
@@ -244,7 +257,7 @@ static void scenario(ygm::comm& comm, const std::string& name, const std::string
       auto res = ygm::container::reduce_by_key_map<uint64_t, HV>(vec, Red(), comm);
       g_trace = false;
       dump(res);
-    } else {
+    } else if (mode == "rbkbag") {
       ygm::container::bag<std::pair<uint64_t, HV>> bag(comm);
       for (auto& kv : vec) bag.async_insert(kv);
       comm.barrier();
@@ -252,6 +265,14 @@ static void scenario(ygm::comm& comm, const std::string& name, const std::string
       auto res = ygm::container::reduce_by_key_map<uint64_t, HV>(bag, Red(), comm);
       g_trace = false;
       dump(res);
+    } else {   // rbkbag2: the input lives on another communicator over the same ranks, inserts still pending
+      ygm::comm second(mc);
+      {
+        ygm::container::bag<std::pair<uint64_t, HV>> bag(second);
+        for (auto& kv : vec) bag.async_insert(kv);      // no barrier: for_all inside reduce_by_key_map must deliver them
+        auto res = ygm::container::reduce_by_key_map<uint64_t, HV>(bag, Red(), comm);
+        dump(res);
+      }
     }
   }
   g_world = nullptr;
@@ -266,7 +287,7 @@ static void on_sub(ygm::comm& world, int split, const std::string& mode, script_
   MPI_Comm_split(MPI_COMM_WORLD, colour, wr, &subc);
   {
     ygm::comm sub(subc);
-    scenario(sub, "sub", mode, s);
+    scenario(sub, subc, "sub", mode, s);
   }   // the ygm::comm is destroyed before its MPI communicator is freed
   MPI_Comm_free(&subc);
 }
@@ -279,7 +300,7 @@ extern "C" int sim_main(int argc, char** argv) {
   g_opid = argc > 3 ? atoi(argv[3]) : 0;
   int subcomm = argc > 4 ? atoi(argv[4]) : 0, split = argc > 5 ? atoi(argv[5]) : 0;
   if (subcomm == 1) on_sub(world, split, mode, s);
-  scenario(world, "world", mode, s);
+  scenario(world, MPI_COMM_WORLD, "world", mode, s);
   if (subcomm == 2) on_sub(world, split, mode, s);
   return 0;
 }
